@@ -6,6 +6,7 @@ import (
 	"go/token"
 	"go/types"
 	"strings"
+	"sync"
 
 	"golang.org/x/tools/go/ssa"
 )
@@ -495,4 +496,103 @@ func Res(r *ssa.Return, i int) ssa.Value {
 		}
 	}
 	return v
+}
+
+var sentinelCache sync.Map // *ssa.Global -> bool
+
+// NonNil reports values that are certainly not nil: interfaces made from concrete values, fresh
+// allocations, closures, results of errors.New / fmt.Errorf, and loads of package-level variables
+// that are assigned a non-nil value once, in the package initialiser, and nowhere else (error
+// sentinels such as ErrClientClosed, TableNotFound).
+func NonNil(v ssa.Value) bool {
+	switch x := Strip(v).(type) {
+	case *ssa.MakeInterface, *ssa.Alloc, *ssa.MakeClosure, *ssa.Function, *ssa.MakeMap, *ssa.MakeChan, *ssa.MakeSlice:
+		return true
+	case *ssa.Const:
+		return !x.IsNil()
+	case *ssa.Call:
+		n := CalleeName(x)
+		return n == "errors.New" || n == "fmt.Errorf"
+	case *ssa.UnOp:
+		if x.Op != token.MUL {
+			return false
+		}
+		g, ok := x.X.(*ssa.Global)
+		if !ok || g.Pkg == nil {
+			return false
+		}
+		if c, ok := sentinelCache.Load(g); ok {
+			return c.(bool)
+		}
+		res := false
+		stores, bad := 0, false
+		for _, m := range g.Pkg.Members {
+			fn, ok := m.(*ssa.Function)
+			if !ok {
+				continue
+			}
+			scanGlobalStores(fn, g, &stores, &bad)
+		}
+		// methods and literals
+		for fn := range allFuncsOf(g.Pkg) {
+			scanGlobalStores(fn, g, &stores, &bad)
+		}
+		res = stores > 0 && !bad
+		sentinelCache.Store(g, res)
+		return res
+	}
+	return false
+}
+
+func scanGlobalStores(fn *ssa.Function, g *ssa.Global, stores *int, bad *bool) {
+	seen := map[*ssa.Function]bool{}
+	var visit func(f *ssa.Function)
+	visit = func(f *ssa.Function) {
+		if seen[f] {
+			return
+		}
+		seen[f] = true
+		for _, b := range f.Blocks {
+			for _, in := range b.Instrs {
+				switch x := in.(type) {
+				case *ssa.Store:
+					if x.Addr == ssa.Value(g) {
+						if f.Name() == "init" && f.Parent() == nil && NonNil(x.Val) {
+							*stores++
+						} else {
+							*bad = true
+						}
+					}
+				case *ssa.Call:
+					// address taken: anything may write it
+					for _, a := range x.Call.Args {
+						if a == ssa.Value(g) {
+							*bad = true
+						}
+					}
+				}
+			}
+		}
+		for _, a := range f.AnonFuncs {
+			visit(a)
+		}
+	}
+	visit(fn)
+}
+
+func allFuncsOf(pkg *ssa.Package) map[*ssa.Function]bool {
+	out := map[*ssa.Function]bool{}
+	for _, m := range pkg.Members {
+		if t, ok := m.(*ssa.Type); ok {
+			for _, typ := range []types.Type{t.Type(), types.NewPointer(t.Type())} {
+				ms := pkg.Prog.MethodSets.MethodSet(typ)
+				for i := 0; i < ms.Len(); i++ {
+					if fn := pkg.Prog.MethodValue(ms.At(i)); fn != nil && fn.Pkg == pkg {
+						out[fn] = true
+					}
+				}
+			}
+		}
+	}
+	return out
 }
